@@ -40,7 +40,7 @@ InfoIds == 1..MaxInfo
 
 \* n: which version of the entry this is (stands for the identity of the ValueEntry);
 \* ver: the version most recently written under this EntryInfo
-NoEntry == [p |-> FALSE, v |-> 0, i |-> 0, n |-> 0]
+NoEntry == [p |-> FALSE, v |-> 0, i |-> 0, n |-> 0, tw |-> 0]
 NoInfo == [k |-> 0, adm |-> FALSE, dirty |-> FALSE, la |-> None, lm |-> None, w |-> 0, ver |-> 0]
 
 SInit(cfg) ==
@@ -266,9 +266,13 @@ HandleUpsert(s0, c0, r) ==
        THEN IF "F9" \in Dev
             THEN <<EmitMx(MoveBackWo(MoveBackAo(sA, i), i), [t |-> "upsert.update", k |-> r.k]),
                    <<c0[1], SatSub(c0[2], r.ow) + r.nw>>>>
-            ELSE <<EmitMx(MoveBackWo(MoveBackAo([sA EXCEPT !.info[i].w = r.nw], i), i),
+            ELSE IF "F16" \in Dev \/ Current(sA)
+            THEN <<EmitMx(MoveBackWo(MoveBackAo([sA EXCEPT !.info[i].w = r.nw], i), i),
                           [t |-> "upsert.update", k |-> r.k]),
                    <<c0[1], SatSub(c0[2], sA.info[i].w) + r.nw>>>>
+            \* F16 repaired: the record of a value that has been replaced since (two threads wrote
+            \* the key and queued their records in the opposite order) leaves the counted weight alone
+            ELSE <<EmitMx(MoveBackWo(MoveBackAo(sA, i), i), [t |-> "upsert.update", k |-> r.k]), c0>>
        ELSE IF "F5" \notin Dev /\ ~(sA.map[r.k].p /\ sA.map[r.k].i = i)
        THEN \* the entry left the map before it was admitted: nothing to do
             <<sA, c0>>
@@ -363,13 +367,13 @@ InsMap(s, k, v, w0) ==
        THEN LET i == s.map[k].i
                 ow == s.info[i].w
                 n == s.info[i].ver + 1
-            IN <<[s EXCEPT !.map[k].v = v, !.map[k].n = n,
+            IN <<[s EXCEPT !.map[k].v = v, !.map[k].n = n, !.map[k].tw = w,
                            !.info[i] = [@ EXCEPT !.dirty = TRUE, !.la = s.now, !.lm = s.now, !.ver = n,
                                                  !.w = IF "F9" \in Dev THEN w ELSE @]],
                  [t |-> "U", k |-> k, i |-> i, ow |-> ow, nw |-> w, n |-> n]>>
        ELSE LET i == FreshInfo(s)
             IN IF i = 0 THEN <<Crash(s, "MODEL: out of info ids"), [t |-> "U", k |-> k, i |-> 1, ow |-> 0, nw |-> w, n |-> 1]>>
-               ELSE <<[s EXCEPT !.map[k] = [p |-> TRUE, v |-> v, i |-> i, n |-> 1],
+               ELSE <<[s EXCEPT !.map[k] = [p |-> TRUE, v |-> v, i |-> i, n |-> 1, tw |-> w],
                                !.info[i] = [k |-> k, adm |-> FALSE, dirty |-> TRUE,
                                             la |-> s.now, lm |-> s.now, w |-> w, ver |-> 1]],
                     [t |-> "U", k |-> k, i |-> i, ow |-> 0, nw |-> w, n |-> 1]>>
@@ -424,7 +428,7 @@ Advance(s, d) == [s EXCEPT !.now = s.now + d, !.aged = FALSE, !.mx = <<>>]
 ResOf(s) == LET ks == SortedSeq({k \in Keys : s.map[k].p})
             IN [j \in DOMAIN ks |->
                   LET x == s.info[s.map[ks[j]].i] IN
-                  [k |-> ks[j], v |-> s.map[ks[j]].v, w |-> x.w, la |-> x.la, lm |-> x.lm,
+                  [k |-> ks[j], v |-> s.map[ks[j]].v, w |-> x.w, tw |-> s.map[ks[j]].tw, la |-> x.la, lm |-> x.lm,
                    adm |-> x.adm, dirty |-> x.dirty]]
 
 NLive(s) == Cardinality({k \in Keys : s.map[k].p})
